@@ -82,6 +82,8 @@ fn cutoff(e: &Expr) -> bool {
 
 pub struct Prog {
     pub defs: Vec<Def>,
+    /// node ids of effects created as `RenderEffect`
+    pub render: Vec<usize>,
     pub tags: Vec<&'static str>,
 }
 
@@ -98,6 +100,7 @@ pub fn gen_prog(r: &mut Rng, mode: Mode) -> Prog {
         Mode::C02 => r.range(1, 3),
     };
     let mut written_by_stage: Vec<usize> = vec![];
+    let mut render: Vec<usize> = vec![];
     for k in 0..stages {
         let nmemo = match mode {
             Mode::C01 => r.range(1, 7),
@@ -149,6 +152,9 @@ pub fn gen_prog(r: &mut Rng, mode: Mode) -> Prog {
                 written_by_stage.push(o);
             }
             defs.push(Def::Eff(e));
+            if r.chance(1, 4) {
+                render.push(defs.len() - 1);
+            }
         }
     }
     // tags
@@ -191,17 +197,21 @@ pub fn gen_prog(r: &mut Rng, mode: Mode) -> Prog {
     if !written_by_stage.is_empty() {
         tags.push("effwrite");
     }
+    if !render.is_empty() {
+        tags.push("render");
+    }
     if tags.is_empty() {
         tags.push("plain");
     }
-    Prog { defs, tags }
+    Prog { defs, render, tags }
 }
 
 pub fn write_prog(f: &mut impl Write, p: &Prog) -> std::io::Result<()> {
-    for d in &p.defs {
+    for (i, d) in p.defs.iter().enumerate() {
         match d {
             Def::Sig(v) => writeln!(f, "sig {v}")?,
             Def::Memo(b) => writeln!(f, "memo {}", show_expr(b))?,
+            Def::Eff(b) if p.render.contains(&i) => writeln!(f, "reff {}", show_expr(b))?,
             Def::Eff(b) => writeln!(f, "eff {}", show_expr(b))?,
         }
     }
@@ -221,11 +231,21 @@ pub fn gen(mode: Mode, seed: u64, n: usize, path: &str, _tier: &str) -> std::io:
             p.defs.iter().enumerate().filter(|(_, d)| matches!(d, Def::Memo(_) | Def::Sig(_))).map(|x| x.0).collect();
         let memos: Vec<usize> = p.defs.iter().enumerate().filter(|(_, d)| matches!(d, Def::Memo(_))).map(|x| x.0).collect();
         let has_eff = p.defs.iter().any(|d| matches!(d, Def::Eff(_)));
+        let effs: Vec<usize> = p.defs.iter().enumerate().filter(|(_, d)| matches!(d, Def::Eff(_))).map(|x| x.0).collect();
+        let lifecycle = has_eff && r.chance(1, 4);
+        if lifecycle {
+            tags.push("lifecycle");
+        }
         let mut ops = vec![];
         let mut cur: Vec<i64> = p.defs.iter().map(|d| if let Def::Sig(v) = d { *v } else { 0 }).collect();
         let mut eqwrite = false;
         for _ in 0..len {
             let k = r.below(10);
+            if lifecycle && r.chance(1, 6) {
+                let e = *r.pick(&effs);
+                ops.push(format!("{} {e}", *r.pick(&["pause", "resume", "resume", "dispose", "pause"])));
+                continue;
+            }
             if k < 4 {
                 let s = *r.pick(&sigs);
                 let v = r.below(3) as i64;
